@@ -177,6 +177,28 @@ def check_symmetry(ctx):
         if isinstance(e2, ast.AST):
             expr = e2
 
+    import copy as _copy
+
+    class Expand(ast.NodeTransformer):
+        """locals defined once are replaced by their definition: a value computed from one distribution before the swap-symmetric
+        expression (a shared support, a shared normaliser) breaks the symmetry just as if it were written inline"""
+
+        def __init__(self):
+            self.depth = 0
+
+        def visit_Name(self, n):
+            if n.id in ps or not isinstance(n.ctx, ast.Load) or self.depth > 6:
+                return n
+            v = d.single_def(n.id)
+            if isinstance(v, ast.AST) and len(d.defs.get(n.id, [])) == 1:
+                self.depth += 1
+                out = self.visit(_copy.deepcopy(v))
+                self.depth -= 1
+                return out
+            return n
+
+    expr = Expand().visit(_copy.deepcopy(expr))
+
     class Swap(ast.NodeTransformer):
         def visit_Name(self, n):
             if n.id == a:
@@ -302,6 +324,23 @@ def check_subdistribution(ctx):
     loops = [n for n in cfg.nodes if n.kind == "for"]
     proj_loops = [n for n in loops if "distribution_dict" in norm(n.ast.iter)]
     if len(proj_loops) != 1:
+        # vectorised grouping: the groups must be keyed by the projected outcome itself. A numeric digest of it (positional code,
+        # dot product, sum, hash) is injective only on a restricted alphabet / width, so distinct projections can share a group
+        d0 = Defs(fi.node)
+        for c in body_walk(fi.node):
+            if isinstance(c, ast.Call) and (dotted(c.func) or "").split(".")[-1] in ("unique", "bincount", "groupby") and c.args and not any(k.arg == "axis" for k in c.keywords):
+                key = c.args[0]
+                chain, seen_names = [key], set()
+                while chain:
+                    e = chain.pop()
+                    for y in ast.walk(e):
+                        if isinstance(y, ast.Name) and y.id not in seen_names:
+                            seen_names.add(y.id)
+                            chain.extend(v for v in d0.defs.get(y.id, []) if isinstance(v, ast.AST))
+                        digest = (isinstance(y, ast.Call) and isinstance(y.func, ast.Attribute) and y.func.attr in ("dot", "sum", "matmul", "tobytes")) or (isinstance(y, ast.Call) and dotted(y.func) in ("hash", "np.dot", "np.sum", "numpy.dot", "sum")) or (isinstance(y, ast.BinOp) and isinstance(y.op, (ast.MatMult, ast.LShift, ast.Pow)))
+                        if digest:
+                            ctx.violation(R4, fi.key + ":grouping-key", f"projected outcomes are grouped by `{short(key)}`, a numeric digest (`{short(y)}`) of the projected outcome: it is not injective on tuples of arbitrary equal-length outcomes (entries other than 0/1, or more positions than the integer width), so distinct projected outcomes are merged into one key", f"{fi.module.relpath}:{c.lineno}")
+                            return
         ctx.undecided(R4, fi.key, f"expected one projection loop over the distribution's keys, found {len(proj_loops)}", fi)
         return
     loop = proj_loops[0]
